@@ -158,6 +158,103 @@ func negB(a *big.Int) *big.Int {
 	return new(big.Int).Neg(a)
 }
 
+
+// ---- linear forms: a = Σ coef·atom + c
+
+type linForm struct {
+	atoms []*Term
+	coefs []*big.Int
+	c     *big.Int
+}
+
+func (l *linForm) add(t *Term, k *big.Int) {
+	for i, a := range l.atoms {
+		if a == t {
+			l.coefs[i] = new(big.Int).Add(l.coefs[i], k)
+			return
+		}
+	}
+	l.atoms = append(l.atoms, t)
+	l.coefs = append(l.coefs, new(big.Int).Set(k))
+}
+
+func linCollect(t *Term, k *big.Int, l *linForm, depth int) {
+	if depth > 64 {
+		l.add(t, k)
+		return
+	}
+	switch t.Op {
+	case "int":
+		l.c = new(big.Int).Add(l.c, new(big.Int).Mul(k, t.I))
+	case "+":
+		linCollect(t.Args[0], k, l, depth+1)
+		linCollect(t.Args[1], k, l, depth+1)
+	case "-":
+		linCollect(t.Args[0], k, l, depth+1)
+		linCollect(t.Args[1], new(big.Int).Neg(k), l, depth+1)
+	case "neg":
+		linCollect(t.Args[0], new(big.Int).Neg(k), l, depth+1)
+	case "*":
+		if t.Args[1].Op == "int" {
+			linCollect(t.Args[0], new(big.Int).Mul(k, t.Args[1].I), l, depth+1)
+		} else if t.Args[0].Op == "int" {
+			linCollect(t.Args[1], new(big.Int).Mul(k, t.Args[0].I), l, depth+1)
+		} else {
+			l.add(t, k)
+		}
+	default:
+		l.add(t, k)
+	}
+}
+
+// splitByDivisor writes a non-negative a as k·q + r with 0 <= r < k shown by
+// intervals (q, r linear in a's atoms); ok=false when that cannot be shown.
+func (f *TF) splitByDivisor(a *Term, k *big.Int) (q, r *Term, ok bool) {
+	if a.Op != "+" && a.Op != "-" && a.Op != "*" {
+		return nil, nil, false
+	}
+	if a.Lo == nil || a.Lo.Sign() < 0 {
+		return nil, nil, false
+	}
+	l := &linForm{c: new(big.Int)}
+	linCollect(a, bi(1), l, 0)
+	if len(l.atoms) > 48 {
+		return nil, nil, false
+	}
+	q, r = f.Int(0), f.Int(0)
+	for i, at := range l.atoms {
+		co := l.coefs[i]
+		if co.Sign() == 0 {
+			continue
+		}
+		if new(big.Int).Mod(co, k).Sign() == 0 {
+			q = f.Add(q, f.Mul(at, f.IntB(new(big.Int).Quo(co, k))))
+		} else {
+			r = f.Add(r, f.Mul(at, f.IntB(co)))
+		}
+	}
+	if r.Lo == nil || r.Hi == nil {
+		return nil, nil, false
+	}
+	// the constant goes to r as the representative of its class mod k that lifts r's interval into [0,k)
+	_, rc := new(big.Int).DivMod(l.c, k, new(big.Int))
+	need := new(big.Int).Neg(new(big.Int).Add(r.Lo, rc)) // smallest multiple of k to add: ceil(need/k)
+	j := new(big.Int)
+	if need.Sign() > 0 {
+		j.Add(need, new(big.Int).Sub(k, bi(1)))
+		j.Quo(j, k)
+	} else {
+		j.Quo(need, k) // need <= 0: truncation toward zero is the ceiling
+	}
+	cr := new(big.Int).Add(rc, new(big.Int).Mul(j, k))
+	r = f.Add(r, f.IntB(cr))
+	q = f.Add(q, f.IntB(new(big.Int).Quo(new(big.Int).Sub(l.c, cr), k)))
+	if r.Lo == nil || r.Hi == nil || r.Lo.Sign() < 0 || r.Hi.Cmp(k) >= 0 {
+		return nil, nil, false
+	}
+	return q, r, true
+}
+
 // ---- arithmetic
 
 func (f *TF) Add(a, b *Term) *Term {
@@ -241,6 +338,11 @@ func (f *TF) DivT(a, b *Term) *Term {
 		return f.IntB(new(big.Int).Quo(a.I, b.I))
 	}
 	var lo, hi *big.Int
+	if b.Op == "int" && b.I.Sign() > 0 {
+		if q, _, ok := f.splitByDivisor(a, b.I); ok {
+			return q
+		}
+	}
 	if b.Op == "int" && b.I.Sign() > 0 && a.Lo != nil && a.Hi != nil {
 		lo = new(big.Int).Quo(a.Lo, b.I)
 		hi = new(big.Int).Quo(a.Hi, b.I)
@@ -254,6 +356,11 @@ func (f *TF) RemT(a, b *Term) *Term {
 		return f.IntB(new(big.Int).Rem(a.I, b.I))
 	}
 	var lo, hi *big.Int
+	if b.Op == "int" && b.I.Sign() > 0 {
+		if _, r, ok := f.splitByDivisor(a, b.I); ok {
+			return r
+		}
+	}
 	if b.Op == "int" && b.I.Sign() > 0 {
 		m := new(big.Int).Sub(b.I, bi(1))
 		if a.Lo != nil && a.Lo.Sign() >= 0 {
@@ -277,6 +384,9 @@ func (f *TF) EDiv(a *Term, c int64) *Term {
 		q, _ := new(big.Int).DivMod(a.I, bi(c), new(big.Int))
 		return f.IntB(q)
 	}
+	if q, _, ok := f.splitByDivisor(a, bi(c)); ok {
+		return q
+	}
 	return f.mk(&Term{Op: "ediv", Sort: SInt, Args: []*Term{a, f.Int(c)}})
 }
 func (f *TF) EMod(a *Term, c int64) *Term {
@@ -286,6 +396,9 @@ func (f *TF) EMod(a *Term, c int64) *Term {
 	}
 	if a.Lo != nil && a.Hi != nil && a.Lo.Sign() >= 0 && a.Hi.Cmp(bi(c)) < 0 {
 		return a
+	}
+	if _, r, ok := f.splitByDivisor(a, bi(c)); ok {
+		return r
 	}
 	return f.mk(&Term{Op: "emod", Sort: SInt, Args: []*Term{a, f.Int(c)}, Lo: bi(0), Hi: bi(c - 1)})
 }
